@@ -1694,9 +1694,14 @@ class Interp(seq_detached.DetachedMixin, S.SeqRun):
             self.probe('flush_accepted_cycle_among_new_objects')
         self.after_flush()
 
-    def op_oflush(self, a, b, c):
+    def op_oflush(self, a, b, c, newest=False):
         """obj.flush(): saves one object (and the objects it depends on)"""
         mo = self.pick(a)
+        if newest:
+            # the object created last that is not stored yet (obj.flush() right after the constructor: the usual
+            # way to learn an auto-incremented id)
+            fresh = [o for o in self.live_sorted() if not o.stored and o.mid in self.handles]
+            mo = fresh[-1] if fresh else None
         if mo is None:
             return
         h = self.handle_or_poison(mo.mid)
@@ -1951,6 +1956,8 @@ class Interp(seq_detached.DetachedMixin, S.SeqRun):
                 self.op_raw_log(a, b, c)
         elif name == 'oflush':
             self.op_oflush(a, b, c)
+        elif name == 'oflush_new':
+            self.op_oflush(a, b, c, newest=True)
         elif name == 'seq_in':
             self.op_seq_in(a, b, c)
         elif name == 'new_rawfk':
